@@ -131,7 +131,8 @@ func extendMacroEnv(macro *object.Macro, args []object.Quote) *State {
 	extended := object.NewEnclosedEnvironment(macro.Env)
 
 	for paramIdx, param := range macro.Parameters {
-		extended.Set(param.Value().Literal(), args[paramIdx])
+		// like function parameters: always a new local entry (a name that also is an extension function's, e.g. max, is fine).
+		extended.SetNoChecks(param.Value().Literal(), args[paramIdx], true)
 	}
 
 	return &State{env: extended}
